@@ -2,6 +2,7 @@
 """run checks against a scratch copy of /repo with a seeded change applied (leaves /repo alone).
 usage: tools/mut.py <seeded dir> <PID> [<PID> ...]"""
 import json, os, shutil, subprocess, sys, tempfile, time
+ROOT = os.path.dirname(os.path.dirname(os.path.abspath(__file__)))
 d = os.path.abspath(sys.argv[1]); pids = sys.argv[2:]
 tmp = tempfile.mkdtemp(prefix='mut_')
 try:
@@ -15,7 +16,7 @@ try:
     res = {}
     for pid in pids:
         t0 = time.time()
-        p = subprocess.run(['/verif/check', pid], capture_output=True, text=True, env=env)
+        p = subprocess.run([os.path.join(ROOT, 'check'), pid], capture_output=True, text=True, env=env)
         lines = [l for l in p.stdout.split('\n') if l.startswith(('VIOLATION', 'KNOWN-FINDING'))]
         res[pid] = dict(exit=p.returncode, lines=lines[:6], wall=round(time.time() - t0, 1))
         print(os.path.basename(d), pid, 'exit', p.returncode, 'in %.0fs' % (time.time() - t0))
